@@ -1062,11 +1062,12 @@ class ASTGroupingSets(ASTBase):
         """返回语法节点的 SQL 源码"""
         grouping_str_list = []
         for grouping in self.grouping_list:
-            if len(grouping) > 1:
-                grouping_str_list.append(
-                    "(" + ", ".join(source_with_parenthesis(column, sql_type, 8) for column in grouping) + ")")
+            column_str_list = [source_with_parenthesis(column, sql_type, 8) for column in grouping]
+            if len(column_str_list) == 1 and not column_str_list[0].startswith("("):
+                grouping_str_list.append(column_str_list[0])
             else:
-                grouping_str_list.append(source_with_parenthesis(grouping[0], sql_type, 8))
+                # 空分组、多个元素的分组、以括号开头的单个元素（否则会被重新解析为多个元素的分组）均需要保留分组的括号
+                grouping_str_list.append("(" + ", ".join(column_str_list) + ")")
         return "GROUPING SETS (" + ", ".join(grouping_str_list) + ")"
 
 
